@@ -78,7 +78,7 @@ ANN = {
 _mod_n = [0]
 
 
-def declare(shape, max_depth, with_leaf=False, base="Schema"):
+def declare(shape, max_depth, with_leaf=False, base="Schema", collect=False):
     """exec a fresh module declaring the recursive class(es); -> (module, top class)"""
     import utype
     ensure_leaf_converter()
@@ -87,7 +87,8 @@ def declare(shape, max_depth, with_leaf=False, base="Schema"):
     mod = types.ModuleType(name)
     mod.__dict__.update({"utype": utype, "Leaf": Leaf})
     sys.modules[name] = mod
-    opt = f"    __options__ = utype.Options(max_depth={max_depth})\n" if max_depth else ""
+    oargs = ([f"max_depth={max_depth}"] if max_depth else []) + (["collect_errors=True"] if collect else [])
+    opt = f"    __options__ = utype.Options({', '.join(oargs)})\n" if oargs else ""
     leaf = "    leaf: Leaf = None\n" if with_leaf else ""
     # class names are unique per declaration: typing caches Optional['N'] & co. process-wide, and utype stores the resolved
     # class on that shared ForwardRef object - two modules using the same class name would cross-talk (a C17 finding)
@@ -154,14 +155,15 @@ def judge_depth(case):
     if how not in ("class", "runtime-override"):
         raise HarnessError("bad limit_from")
     # runtime-override: the class declares another limit (or none); Options(max_depth=d, override=True) passed to __from__ governs every level
-    mod, N = declare(shape, d if how == "class" else case.get("class_limit"), base=case.get("base", "Schema"))
+    mod, N = declare(shape, d if how == "class" else case.get("class_limit"), base=case.get("base", "Schema"), collect=bool(case.get("collect")))
     try:
         x = chain(shape, D, positions, siblings=case.get("siblings", 0))
         if how == "class":
             out = oracle.outcome(N.__from__, x)
         else:
             import utype
-            out = oracle.outcome(N.__from__, x, utype.Options(max_depth=d, override=True) if d else utype.Options(override=True))
+            ro = dict(override=True, **({"collect_errors": True} if case.get("collect") else {}))
+            out = oracle.outcome(N.__from__, x, utype.Options(max_depth=d, **ro) if d else utype.Options(**ro))
         if out[0] in ("other", "hang"):
             return {"status": "other", "fails": []}
         want = d is None or D <= d
@@ -182,10 +184,10 @@ def judge_cycle(case):
     shape, d, kind = case["shape"], case.get("max_depth"), case.get("cycle", "self")
     if shape not in SHAPES or not d:
         raise HarnessError("bad cycle case")
-    mod, N = declare(shape, d)
+    mod, N = declare(shape, d, with_leaf=True, collect=bool(case.get("collect")))
     try:
-        a = {"v": 1}
-        b = {"v": 2}
+        a = {"v": 1, "leaf": "ok"}
+        b = {"v": 2, "leaf": "ok"}
 
         def link(parent, child):
             if shape == "list":
@@ -201,8 +203,14 @@ def judge_cycle(case):
         else:
             link(a, b)
             link(b, a)
+        COUNT[0] = 0
         out = oracle.outcome(N.__from__, a, backstop=20)
+        w = COUNT[0]
         fails = []
+        mult = 3 ** d if shape in ("opt", "union_first", "union_last") else 1    # known retry factor of the union stages (KF-C18-03)
+        if w > ((d + 1) ** 2 + 8) * mult:
+            # the limit cuts a cyclic input after d levels: the work cannot exceed what d levels hold
+            fails.append((f"cycle/work-goes-on-beyond-the-depth-limit/{shape}{'/collect_errors' if case.get('collect') else ''}", {"max_depth": d, "work": w, "cycle": kind}))
         if out[0] == "ok":
             fails.append((f"cycle/accepted-with-max_depth/{shape}", {"max_depth": d, "cycle": kind}))
         elif out[0] in ("other", "hang"):
@@ -295,6 +303,10 @@ def campaign(ctx):
         for d in (1, 2, 4):
             for cyc in ("self", "two"):
                 grid.append({"part": "cycle", "shape": shape, "max_depth": d, "cycle": cyc})
+                grid.append({"part": "cycle", "shape": shape, "max_depth": d, "cycle": cyc, "collect": True})
+        for D in range(1, 6):
+            for d in (1, 2, 3):
+                grid.append({"part": "depth", "shape": shape, "D": D, "max_depth": d, "positions": [POSITIONS[shape][-1]], "collect": True})
     for shape in SHAPES:
         for pos in POSITIONS[shape][:2]:
             for D in range(1, 6):
@@ -327,7 +339,8 @@ def campaign(ctx):
                                "max_depth": st.sampled_from([None, 1, 2, 3, 4, 5]), "siblings": st.integers(0, 2),
                                "base": st.sampled_from(["Schema", "Schema", "DataClass"]),
                                "positions": st.lists(st.sampled_from([0, 1, 2, "", "k", "0", "x y"]), min_size=1, max_size=5),
-                               "limit_from": st.sampled_from(["class", "class", "runtime-override"]), "class_limit": st.sampled_from([None, 1, 3, 5])}),
+                               "limit_from": st.sampled_from(["class", "class", "runtime-override"]), "class_limit": st.sampled_from([None, 1, 3, 5]),
+                               "collect": st.booleans()}),
         st.fixed_dictionaries({"part": st.just("cost"), "shape": st.sampled_from(SHAPES), "D": st.integers(1, 9), "bad": st.booleans(),
                                "breadth": st.integers(0, 3), "base": st.sampled_from(["Schema", "DataClass"])}),
     )
